@@ -29,7 +29,7 @@ ASSUMPTIONS = [
     'rows are compared after results()\' own validation (the observation point the property names)',
     'programs whose baseline (without the observer) does not pass results() validation are outside the domain (rejected)',
 ]
-BUDGET = {'quick': dict(examples=800, shards=8, seconds=80),
+BUDGET = {'quick': dict(examples=1600, shards=16, seconds=80),
           'thorough': dict(examples=60000, shards=16, seconds=1200)}
 
 OBSERVERS = ['printer', 'dump_to_path', 'dump_to_path_json', 'dump_to_zip', 'stream_file', 'checkpoint',
